@@ -1080,10 +1080,13 @@ Definition c_open (w : cworld) (s mode : Z) (c : hcfg) : option (cworld * list Z
     end
   end.
 
+(* observation of the file image: rc, length of the header image the format decoder finds at the start
+   (0 if none), size, bytes.  Only the header image is comparable with the real file: what follows it is the
+   data section (or was never written), which is not the business of the metadata model *)
 Definition snapshot_flat (disk : option (list byte)) : list Z :=
   match disk with
   | None => [-1]
-  | Some d => NC_NOERR :: Zlen d :: d
+  | Some d => NC_NOERR :: (match decode d with Some dc => dc_len dc | None => 0 end) :: Zlen d :: d
   end.
 
 (* =====================================================================================
